@@ -78,6 +78,14 @@ class SStr:
         return self
 
 
+class TaggedList(list):
+    """table contents as nested lists; remembers the value-changing operations applied to the table it came from"""
+
+    def __init__(self, items=(), tags=()):
+        super().__init__(items)
+        self.tags = tuple(tags)
+
+
 class TaggedRow(dict):
     """one table row as a dictionary; remembers the value-changing operations (rounding ...) applied to the table it came from"""
 
@@ -201,6 +209,13 @@ def install(I: Interp, fs: dict):
 
     def s_startswith(I, s, a, k, n):
         pre = a[0]
+        if isinstance(pre, tuple):
+            # str.startswith(tuple): true if any prefix matches
+            res = [s_startswith(I, s, [p_], k, n) for p_ in pre]
+            if any(r is True for r in res):
+                return True
+            unknown = [r for r in res if isinstance(r, UnknownBool)]
+            return unknown[0] if unknown else False
         first = s.parts[0] if s.parts and isinstance(s.parts[0], str) else ""
         if isinstance(pre, str):
             if len(first) >= len(pre):
@@ -360,7 +375,7 @@ def install(I: Interp, fs: dict):
     M[("MiniFrame", "apply")] = lambda I, f, a, k, n: MiniFrame(f.cols, f.tags + (("apply", I.describe(a[0]), tuple(sorted(k))),))
     M[("MiniFrame", "reindex")] = lambda I, f, a, k, n: MiniFrame({c: f.cols.get(c, [NAN] * f.nrows) for c in k["columns"]}, f.tags)
     A[("MiniValues", "T")] = lambda I, v, n: v
-    M[("MiniValues", "tolist")] = lambda I, v, a, k, n: [list(c) for c in v.attrs["f"].cols.values()]
+    M[("MiniValues", "tolist")] = lambda I, v, a, k, n: TaggedList([list(c) for c in v.attrs["f"].cols.values()], v.attrs["f"].tags)
 
     def mf_to_dict(I, f, a, k, n):
         orient = k.get("orient", a[0] if a else "dict")
@@ -543,6 +558,30 @@ def install(I: Interp, fs: dict):
         ct = "xlrd.XL_CELL_TEXT" if isinstance(v, (str, SStr, Tok)) else "xlrd.XL_CELL_NUMBER"
         return Obj(kind="XlCell", attrs={"value": v, "ctype": ExtRef(ct)})
     M[("XlSheet", "cell")] = xl_cell
+
+    def xl_cell_value(I, sh, a, k, n):
+        return xl_cell(I, sh, a, k, n).attrs["value"]
+    M[("XlSheet", "cell_value")] = xl_cell_value
+
+    def xl_col_values(I, sh, a, k, n):
+        c = int(a[0].value())
+        cells = sh.attrs["cells"]
+        nrows = 1 + max((p[0] for p in cells), default=-1)
+        start = int(I.to_py(a[1] if len(a) > 1 else k.get("start_rowx", Num.const(0)), n))
+        end = a[2] if len(a) > 2 else k.get("end_rowx")
+        end = nrows if end is None else int(I.to_py(end, n))
+        return [xl_cell(I, sh, [Num.const(r), Num.const(c)], {}, n).attrs["value"] for r in range(start, end)]
+    M[("XlSheet", "col_values")] = xl_col_values
+
+    def xl_row_values(I, sh, a, k, n):
+        r = int(a[0].value())
+        cells = sh.attrs["cells"]
+        ncols = 1 + max((p[1] for p in cells), default=-1)
+        start = int(I.to_py(a[1] if len(a) > 1 else k.get("start_colx", Num.const(0)), n))
+        end = a[2] if len(a) > 2 else k.get("end_colx")
+        end = ncols if end is None else int(I.to_py(end, n))
+        return [xl_cell(I, sh, [Num.const(r), Num.const(c)], {}, n).attrs["value"] for c in range(start, end)]
+    M[("XlSheet", "row_values")] = xl_row_values
     A[("XlSheet", "nrows")] = lambda I, sh, n: Num.const(1 + max((p[0] for p in sh.attrs["cells"]), default=-1))
     A[("XlSheet", "ncols")] = lambda I, sh, n: Num.const(1 + max((p[1] for p in sh.attrs["cells"]), default=-1))
 
@@ -572,6 +611,7 @@ def install(I: Interp, fs: dict):
         if len(cols) != len(loop.attrs["names"]):
             raise I.fault("ValueError", n, "wrong number of columns for the loop")
         loop.attrs["cols"] = [list(c) for c in cols]
+        loop.attrs["value_tags"] = tuple(getattr(cols, "tags", ()))      # value-changing operations applied to the table written
         return None
     M[("CifLoop", "set_all_values")] = set_all_values
     A[("CifLoop", "tags")] = lambda I, loop, n: [loop.attrs["prefix"] + x for x in loop.attrs["names"]]
